@@ -162,7 +162,11 @@ def _gen_case(rng, tier):
             if rng.random() < 0.5:
                 body = b'--' + boundary.encode() + rng.choice([b'\r\n', b'', b'--', b'\r']) + body
     elif kind in ('mp_mut', 'mp_trunc', 'mp_valid'):
-        fields = gm.gen_fields(rng, max_fields=5, max_file=200)
+        fields = gm.gen_fields(rng, max_fields=5, max_file=200, text_ctypes=gm.TEXT_CTYPES_HOSTILE)
+        if any('value' in f and f.get('ctype') not in (None,) + tuple(gm.TEXT_CTYPES_NEUTRAL) for f in fields):
+            # a text part labelled with a charset that is unknown, not a text encoding, or not UTF-8: what its text is
+            # (if it is accepted at all) is not for this oracle to say; status and the upload parts are still judged
+            case['odd_charset'] = True
         texts = [f['value'].encode('utf8') for f in fields if 'value' in f]
         boundary = gm.choose_boundary(rng, texts, token_only=True)
         if rng.random() < 0.06:
@@ -397,6 +401,8 @@ def _run_case(case):
             if isinstance(x, dict):
                 data = x.get('data')
             elif isinstance(x, str):
+                if case.get('odd_charset'):
+                    continue
                 data = x.encode('utf8')
             else:
                 violation(res, 'C12:field-bad-type', f'{what}[{k!r}] delivered as {x!r}')
@@ -406,7 +412,8 @@ def _run_case(case):
                 violation(res, 'C12:partial-field-delivered',
                           f'{what}[{k!r}] = {data[:40]!r}... ({len(data)} bytes) is not the complete data of a delimiter-terminated part')
                 break
-        if case.get('orig_fields') is not None and case['muts'] in ([], ['truncate']) and not res['viol']:
+        if case.get('orig_fields') is not None and case['muts'] in ([], ['truncate']) and not res['viol'] \
+                and not case.get('odd_charset'):
             # truncation of a well-formed body: delivered list must be a prefix of the submitted list, full values
             exp = []
             for f in case['orig_fields']:
